@@ -14,7 +14,9 @@ func main() {
 		Rule: "generated programs dominated by closure shapes (counter factories, closures created in for/while/repeat/blocks/calls, shared upvalues, two-level capture) whose scopes are left by " +
 			"fall-through, break, goto, return, tail call, an error caught by pcall/xpcall, coroutine suspension/death; afterwards a clobber call reuses the registers and the closures are read and written; " +
 			"setfenv/getfenv shapes; traces compared with the reference evaluator; non-trivial = at least 5 emitted rows or an error outcome; distinct by Gallina term",
-		Modes:     []luaprop.Mode{{Name: "closures", Features: f, Weight: 1}},
+		Modes: []luaprop.Mode{{Name: "closures", Features: f, Weight: 5},
+			// wave 5: small programs around one exit statement that leaves several captured blocks at once
+			{Name: "nested-exit", Features: f, Weight: 1, Gen: luagen.W5C03Program}},
 		NQuick:    240,
 		NThorough: 2500,
 		Corpus:    corpus,
